@@ -33,6 +33,7 @@ class Cursor:
     def __init__(self, txn):
         self.txn = txn
         self.pos = None  # None = unpositioned
+        self.at_front = False
         txn.cursors.append(self)
 
     def set_range(self, k):
@@ -41,6 +42,7 @@ class Cursor:
         n = len(keys)
         while i < n and keys[i] < k:
             i += 1
+        self.at_front = False
         if i < n:
             self.pos = i
             return True
@@ -57,20 +59,22 @@ class Cursor:
             self.pos = len(keys) - 1
             return True
         if self.pos == 0:
-            self.pos = None
+            # MDB_PREV at the first key fails and leaves the C cursor where it is; py-lmdb then reports an empty key
+            self.at_front = True
             return False
         self.pos -= 1
+        self.at_front = False
         return True
 
     def key(self):
-        if self.pos is None or self.pos >= len(self.txn.keys):
+        if self.pos is None or self.pos >= len(self.txn.keys) or self.at_front:
             return b""
         return self.txn.keys[self.pos]
 
     def iternext(self, keys=True, values=True):
         i = self.pos
         ks = self.txn.keys
-        if i is None:
+        if i is None or self.at_front:
             i = 0
         while i < len(ks):
             if keys and values:
